@@ -42,6 +42,11 @@ func (t *Trie) Insert(word string) {
 			if char > t.max {
 				t.max = char
 			}
+		default:
+			if i == l-1 {
+				// The word is a prefix of an already inserted longer word: mark the interior node as a word too.
+				t.children[char].valid = true
+			}
 		}
 		t = t.children[char]
 	}
